@@ -114,8 +114,10 @@ class C15(Check):
             '(both of length <= 2; thorough also length 3 on one side; plus '
             'length 3 against 2..3 over a 4/5-line alphabet under the 16 '
             'points that set remove_lines) run through both entry points '
-            'under 34 (quick) / 144 (thorough) option points; binary case = one pair of byte strings of length '
-            '<= 3 over {a, b, 00, ff, 0a}; missing-reference cases per entry '
+            'under 34 (quick) / 144 (thorough) option points, also with the '
+            'actual lacking a final newline, having a doubled one, or CRLF; '
+            'binary case = one pair of byte strings of length <= 3 over '
+            '{a, b, 00, ff, 0a}; missing-reference cases per entry '
             'point.  Non-trivial = the case contains a failing assertion '
             '(artefact clauses exercised); for text cases additionally a '
             'passing one.')
@@ -131,6 +133,10 @@ class C15(Check):
         'gray zones of the text model (see C04) are inherited',
     ]
 
+    def hashseeds(self, tier, verif_seed):
+        # nothing here depends on hash order; run under the requested seed
+        return [verif_seed % 3]
+
     # ------------------------------------------------------------- layers
     def layers(self, tier):
         L = [('identical', 'identical content: passing assertions write '
@@ -138,6 +144,8 @@ class C15(Check):
              ('binary', 'all pairs of byte strings of length <= 3'),
              ('missing', 'reference file missing'),
              ('seq2', 'all pairs of sequences of length <= 2')]
+        L.append(('forms', 'actual string/file without a final newline, '
+                           'with a doubled one, with CRLF'))
         L.append(('seq3-slice', 'length 3 against length 2..3 over a 4-line '
                                 '(thorough 5-line) alphabet, remove_lines '
                                 'set (index mapping needs >= 3 lines)'))
@@ -163,6 +171,15 @@ class C15(Check):
                 for e in TA.sequences(TA.LAMBDA, 2):
                     if a != e:
                         yield {'k': 'text', 'a': a, 'e': e, 'pts': pts}
+        elif layer == 'forms':
+            alpha = ['a', 'é', '', 'b'] if tier == 'thorough' \
+                else ['a', 'é', '']
+            for a in TA.sequences(alpha, 2):
+                for e in TA.sequences(alpha, 2):
+                    for fa in (['\n', 0], ['\n', 2], ['\r\n', 1]):
+                        for fe in (['\n', 1], ['\n', 0]):
+                            yield {'k': 'text', 'a': a, 'e': e, 'pts': 'q',
+                                   'fa': fa, 'fe': fe}
         elif layer == 'seq3-slice':
             alpha = SLICE_T if tier == 'thorough' else SLICE_Q
             for a in TA.sequences(alpha, 3, 2):
@@ -274,7 +291,8 @@ class C15(Check):
         box = self.box
         a, e = case['a'], case['e']
         points = self.sets[case['pts']]
-        ta, te = TA.content(a), TA.content(e)
+        ta = TA.content(a, *case.get('fa', ['\n', 1]))
+        te = TA.content(e, *case.get('fe', ['\n', 1]))
         box.clean(box.ref, box.act, box.tmp)
         ref = os.path.join(box.ref, 'ref.txt')
         act = os.path.join(box.act, 'out.txt')
@@ -322,9 +340,10 @@ class C15(Check):
                        'nothing-outside-tmp_dir',
                        {'actual': a, 'reference': e, 'changes': d[:6]})
         R.nontrivial = 'fail' in seen and 'pass' in seen
-        if a == e:
+        if a == e and 'fa' not in case:
             R.nontrivial = True     # layer "identical": the pass clause
-        self.flush(R, bad, points, {'actual': a, 'reference': e})
+        self.flush(R, bad, points, {'actual': a, 'reference': e,
+                                    'actual_text': ta, 'reference_text': te})
         return R
 
     def text_failure_clauses(self, route, ta, act, ref, cmds, m, p, add):
@@ -450,8 +469,12 @@ class C15(Check):
         detail = {'file_content': got.decode('utf-8'),
                   'actual_string': want.decode('utf-8')}
         if gl == wl:
+            unix = want.replace(b'\r\n', b'\n').replace(b'\r', b'\n')
             if got + b'\n' == want:
                 add('raw-actual-not-byte-exact:final-newline-dropped', detail)
+            elif unix != want and got in (unix, unix[:-1]):
+                add('raw-actual-not-byte-exact:line-terminators-rewritten',
+                    detail)
             else:
                 add('raw-actual-not-byte-exact:other', detail)
             return
